@@ -715,3 +715,34 @@ def reader_bytes(w, repo):
         ok = (rc == 1) if err else (got == want and rc == 0)
         detail = "input %r%s: xargs delivered %r (rc=%d), reference %r%s" % (data, (" -d %#x" % delim) if kind == "bytes" else "", got, rc, want, " + error" if err else "")
         return (not ok), detail
+
+
+def glob_pattern(w, repo):
+    """exact: files named after the subject (and neighbours); compare find -name PATTERN with the reference fnmatch"""
+    import sys
+    sys.path.insert(0, os.path.join(os.path.dirname(os.path.dirname(os.path.abspath(__file__))), "mirsym"))
+    if not build(repo):
+        return None, "build failed"
+    pat, subj = w.get("pattern"), w.get("subject")
+    if pat is None:
+        # a panic witness: look for it with the bracket patterns known to be delicate
+        res = []
+        with Sandbox() as d:
+            open(os.path.join(d, "a"), "w").close()
+            for p in ("[[.]", "[[:]", "[[=]", "[a[.]", "[[.a"):
+                rc, out, err = run([find_bin(repo), ".", "-name", p], cwd=d)
+                res.append(("find . -name %r: rc=%d" % (p, rc), rc in (0, 1)))
+        return _battery(res)
+    names = [s for s in {subj, "a", "b", "]", "[[", "[a", "."} if s and "/" not in s and s not in (".", "..")]
+    with Sandbox() as d:
+        for n in names:
+            open(os.path.join(d, n), "w").close()
+        rc, out, err = run([find_bin(repo), ".", "-mindepth", "1", "-name", pat], cwd=d)
+        if rc not in (0, 1):
+            return True, "find . -name %r: rc=%d (%s)" % (pat, rc, err.decode(errors="replace").strip()[:100])
+        got = sorted(l[2:] for l in out.decode(errors="replace").splitlines())
+        import importlib.util
+        spec = importlib.util.spec_from_file_location("fnref", os.path.join(os.path.dirname(os.path.dirname(os.path.abspath(__file__))), "mirsym", "fnmatch_ref.py"))
+        fnref = importlib.util.module_from_spec(spec); spec.loader.exec_module(fnref)
+        want = sorted(n for n in names if fnref.fnmatch_ref(pat, n))
+        return (got != want), "find . -name %r over %r selected %r, fnmatch reference %r" % (pat, sorted(names), got, want)
